@@ -439,15 +439,28 @@ func run(t *testing.T, tape *simrt.Tape) *hx.Outcome {
 	wrongDigest := digest.FromString("not the toc " + fmt.Sprint(tape.Seed))
 	verifiedOK, readsOK, readsErr, mountsFailed := 0, 0, 0, 0
 	tampered := false
+	late := alt.served != nil && tape.Draw("cfg.late", 3) == 0 // own stream: older tapes replay unchanged
 	res := simrt.Run(t, tape, simrt.Options{MaxSteps: 4000000, HangAfter: 3 * time.Hour}, func(s *simrt.Sim, mt *simrt.Task) {
 		s.Procs = 1 + s.Tape.Draw("cfg", 3)
 		s.UseDisk(simrt.DiskCfg{Yield: true})
 		reg := simreg.New(s, simreg.Config{Base: simreg.Personality(s.Tape.Draw("cfg", int(simreg.NumPersonalities))), ReadYield: s.Tape.Draw("cfg", 2) == 1})
 		served := built.Blob
-		if alt.served != nil {
+		if alt.served != nil && !late {
 			served = alt.served
 		}
 		reg.Blobs[built.Digest.String()] = served
+		// a registry (or mirror) that is honest until the layer has been verified and mounted, and serves the
+		// altered blob from then on: whatever is fetched later (on demand, by the background fetch, by a
+		// reader that opens the blob again) must still be checked against the TOC pinned at mount time
+		switched := false
+		goLate := func() {
+			if late && !switched {
+				switched = true
+				reg.Blobs[built.Digest.String()] = alt.served
+				s.Stat("late-alteration", 1)
+				s.Event("the registry starts serving the altered blob")
+			}
+		}
 		tm := task.NewBackgroundTaskManager(2, 5*time.Second)
 		rroot := filepath.Join(root, "r")
 		rs, err := layer.NewResolver(rroot, tm, fcfg, nil, store, layer.OverlayOpaqueAll, nil)
@@ -613,6 +626,7 @@ func run(t *testing.T, tape *simrt.Tape) *hx.Outcome {
 						continue
 					}
 					verifiedOK++
+					goLate()
 					rn, err := l.RootNode(0)
 					if err != nil {
 						l.Done()
